@@ -972,9 +972,13 @@ def py_slice(ctx, p, seq, lo, hi, is_str):
         return simp(z3.SubString(seq, lo_t, ln))
     r = z3.Extract(seq, lo_t, ln)
     rs = simp(r)
+    # slices are in-bounds by construction (indices clamped as Python does): remember that, so that iteration
+    # over the slice can be expressed as a sub-range of the base sequence without asking a solver
+    ctx.safe_extracts[r.get_id()] = r
     # keep the extract form (z3 rewrites guarded extracts into ite-terms, which hides the sub-range)
     if z3.is_app(rs) and rs.decl().kind() == z3.Z3_OP_ITE:
         return r
+    ctx.safe_extracts[rs.get_id()] = rs
     return rs
 
 
